@@ -72,23 +72,20 @@ model(
     fields={},
     methods={'set_configuration': _remote(R_SET_CONFIGURATION), 'open': _remote(R_OPEN), 'start': _remote(R_START), 'stop': _remote(R_STOP), 'close': _remote(R_CLOSE)},
 )
-model(
-    'ghost:LocalEndpoint',
-    fields=dict(seid=Int, configuration=Any),
-    methods={
-        'start': _local(L_START),
-        'stop': _local(L_STOP),
-        'close': _local(L_CLOSE),
-        'on_set_configuration_command': _local_hook(L_ON_SET_CONFIGURATION),
-        'on_get_configuration_command': _local_hook(L_ON_GET_CONFIGURATION),
-        'on_reconfigure_command': _local_hook(L_ON_RECONFIGURE),
-        'on_open_command': _local_hook(L_ON_OPEN),
-        'on_start_command': _local_hook(L_ON_START),
-        'on_suspend_command': _local_hook(L_ON_SUSPEND),
-        'on_close_command': _local_hook(L_ON_CLOSE),
-        'on_abort_command': _local_hook(L_ON_ABORT),
-    },
-)
+LOCAL_ENDPOINT_METHODS = {
+    'start': _local(L_START),
+    'stop': _local(L_STOP),
+    'close': _local(L_CLOSE),
+    'on_set_configuration_command': _local_hook(L_ON_SET_CONFIGURATION),
+    'on_get_configuration_command': _local_hook(L_ON_GET_CONFIGURATION),
+    'on_reconfigure_command': _local_hook(L_ON_RECONFIGURE),
+    'on_open_command': _local_hook(L_ON_OPEN),
+    'on_start_command': _local_hook(L_ON_START),
+    'on_suspend_command': _local_hook(L_ON_SUSPEND),
+    'on_close_command': _local_hook(L_ON_CLOSE),
+    'on_abort_command': _local_hook(L_ON_ABORT),
+}
+model('ghost:LocalEndpoint', fields=dict(seid=Int, configuration=Any), methods=LOCAL_ENDPOINT_METHODS)
 model('ghost:RtpChannel', fields={}, methods={'disconnect': Callback('disconnect', effect=_disconnect, is_async=True)})
 model('ghost:AclConnection', fields={}, methods={'create_l2cap_channel': Callback('create_l2cap_channel', effect=_create_channel, is_async=True)})
 model('ghost:SignallingChannel', fields=dict(connection=Inst('ghost:AclConnection')))
